@@ -60,6 +60,11 @@ theorem step_cp (st : St) (x : Instr) :
   | fresh v d =>
     simp only [step] at hy
     simp at hy; exact Or.inl hy
+  | shift a i =>
+    simp only [step] at hy
+    split at hy
+    · exact Or.inl hy
+    · simp [noteRam_cp] at hy; exact Or.inl hy
 
 /-- **Copies come from lvalue arguments only**: if the program copies only from `T&`/`T const&`
 arguments and writes none of them, every identity in the copy log belongs to such an argument. -/
